@@ -113,6 +113,9 @@ type Contracts struct {
 	Axioms  []Clause
 }
 
+// contractsRepoDir: root of the loaded repository (set by loadEngine); contract files get their package path relative to it.
+var contractsRepoDir string
+
 var reFuncHdr = regexp.MustCompile(`^func\s*(\(\s*(\w+)?\s*(\*?)\s*([\w./-]+)\s*\))?\s*([\w$./-]+)\s*(\(([^)]*)\))?`)
 
 func loadContracts(files []string) (*Contracts, error) {
@@ -147,7 +150,9 @@ func (cs *Contracts) loadFile(path string) error {
 	if !trusted {
 		// package path relative to /repo
 		dir := filepath.Dir(path)
-		if i := strings.Index(dir, "/repo/"); i >= 0 {
+		if contractsRepoDir != "" && strings.HasPrefix(dir, contractsRepoDir+"/") {
+			pkg = dir[len(contractsRepoDir)+1:] // package path relative to the repository that was loaded (any location)
+		} else if i := strings.Index(dir, "/repo/"); i >= 0 {
 			pkg = dir[i+6:]
 		} else {
 			pkg = filepath.Base(dir)
@@ -524,6 +529,17 @@ func (cs *Contracts) loadFile(path string) error {
 					return fail(fmt.Errorf("bad hint"))
 				}
 				h.Callee, body = g[0], g[1]
+			} else if h.Where == "at" {
+				// hint at "source line text" E: checked, then assumed, before the first instruction of that statement line (ext_linehint.go)
+				b := strings.TrimSpace(body)
+				q2 := -1
+				if strings.HasPrefix(b, "\"") {
+					q2 = strings.Index(b[1:], "\" ")
+				}
+				if q2 < 0 {
+					return fail(fmt.Errorf(`hint at "source line" E`))
+				}
+				h.Callee, body = strings.TrimSpace(b[1:q2+1]), b[q2+3:]
 			} else if h.Where != "return" {
 				return fail(fmt.Errorf("hint needs `return` or `after <callee>`"))
 			}
